@@ -34,9 +34,12 @@ Definition tick_globals (w : tworld) : env :=
   [("$cancelled", VBool (t_cancel w)); ("$continue", VTok "continue" []); ("$pkg", VOrc "pkg" [("$tick", [VUnit])])].
 
 Definition is_receiver (e : gval) : bool := match e with VEff x _ => x =? "receiver" | _ => false end.
+(* the translated functions that run inside this lemma file; every other call is a scripted collaborator *)
+Definition tick_funs : list (string * gfun) :=
+  filter (fun p => (fst p =? "Manager.HeaderSubmissionLoop") || (fst p =? "Manager.DataSubmissionLoop")) gen_funs.
 Definition run_tick (name : string) (w : tworld) : option (list gval * list gval) :=
-  match lookup gen_funs name with
-  | Some fn => interp (bind (exec 400 gen_funs (tick_globals w) (start_env fn (Some (tick_mgr w)) [ctx]) [] (f_body fn))
+  match lookup tick_funs name with
+  | Some fn => interp (bind (exec 400 tick_funs (tick_globals w) (start_env fn (Some (tick_mgr w)) [ctx]) [] (f_body fn))
                             (fun r => RRet (fst r, filter (fun e => negb (is_receiver e)) (rev (snd r)))))
   | None => None
   end.
